@@ -30,20 +30,23 @@ def judge(case):
     if sys.getrecursionlimit() > 1000:
         raise harness.HarnessError("recursion limit was raised")
     T = sg.Tensor
-    if kind in ("untracked_no_grad", "untracked_no_operand_requires_grad"):
+    if kind.startswith("untracked"):
+        import contextlib
+        under_retain = kind.endswith("+retain_grads"); kind0 = kind.split("+")[0]
         refs = []
-        x = T(np.array([1.0, 2.0]), requires_grad=(kind == "untracked_no_grad"))
+        x = T(np.array([1.0, 2.0]), requires_grad=(kind0 == "untracked_no_grad"))
         def loop():
             y = x * 1.0
             for i in range(n):
                 y = y * 1.0001 + 0.1
                 if i < n - 10: refs.append(weakref.ref(y))
             return y
-        if kind == "untracked_no_grad":
-            with sg.no_grad():
+        with (sg.retain_grads() if under_retain else contextlib.nullcontext()):
+            if kind0 == "untracked_no_grad":
+                with sg.no_grad():
+                    y = loop()
+            else:
                 y = loop()
-        else:
-            y = loop()
         gc.collect()
         alive = sum(1 for r in refs if r() is not None)
         if y.requires_grad: v("result-requires-grad", "untracked result requires grad")
@@ -161,7 +164,8 @@ def dispatch(case):
 def all_cases(tier):
     sizes = SIZES_Q if tier == "quick" else SIZES_T
     out = []
-    for kind in ("chain", "ladder", "tree", "fanin", "untracked_no_grad", "untracked_no_operand_requires_grad"):
+    for kind in ("chain", "ladder", "tree", "fanin", "untracked_no_grad", "untracked_no_operand_requires_grad",
+                 "untracked_no_grad+retain_grads", "untracked_no_operand_requires_grad+retain_grads"):
         for n in sizes:
             if kind == "ladder" and n > 20000: continue
             out.append({"kind": kind, "n": n})
@@ -179,7 +183,7 @@ def run(tier, seed):
     r = engine.run_cases(cases, dispatch)
     cov = {"evaluations": r["evaluations"], "distinct_nontrivial": r["distinct_nontrivial"],
            "rule": "program shapes {chain, diamond ladder (each node feeds the next two), binary-tree reduction, wide fan-in, "
-                   "untracked loop under no_grad, untracked loop with no operand requiring grad} x sizes %s, default recursion "
+                   "untracked loop under no_grad, untracked loop with no operand requiring grad, both also inside retain_grads} x sizes %s, default recursion "
                    "limit; per case: backward completes, closed-form gradient, every backward function invoked exactly once "
                    "(also on a second backward), <= 4 earlier tensors alive after an untracked loop; non-trivial = size >= 100"
                    % (SIZES_Q if tier == "quick" else SIZES_T),
